@@ -51,11 +51,12 @@ def exh_corpus(tier, kind, withviol=False):
     mb = 4 if tier == "quick" else 5
     if kind == "h":
         mb = 4
-    k = cache.key("normexh", kind, mb, withviol)
+    selmod = 5 if (mb >= 5 and kind == "c" and not withviol) else 1       # 7.4e5 structures at MaxBody 5: 1 in 5 is replayed
+    k = cache.key("normexh", kind, mb, withviol, selmod)
     c = cache.get(k)
     if c is not None:
         return [lexmodel.Stat(s) for s in c["stats"]], c["exports"], True
-    rs, exports = normgen.exhaustive(f"normexh-{kind}", kind=kind, maxfuncs=1, maxbody=mb, maxdepth=2, withviol=withviol)
+    rs, exports = normgen.exhaustive(f"normexh-{kind}", kind=kind, maxfuncs=1, maxbody=mb, maxdepth=2, withviol=withviol, selmod=selmod)
     stats = [dict(distinct=r.distinct, generated=r.generated, wall=r.wall, ok=r.ok, violated=r.violated,
                   error=r.error, stdout_path=r.stdout_path) for r in rs]
     if all(r.ok for r in rs):
@@ -159,7 +160,7 @@ def run(pid, tier):
     for i, (rec, origin) in enumerate(recs):
         for s in range(nseeds):
             jobs.append(dict(rec=rec, seed=sd * 7 + s, idx=i, keep_text=(i % 997 == 0)))
-    results = driverprops.pool_map(_work, jobs)
+    results = driverprops.pool_map_shared(_work, jobs)
     cli_jobs = []
     for w in results:
         rec, origin = recs[w["idx"]]
